@@ -300,6 +300,10 @@ def const_local_stable(fn, varid):
             for y in fn.walk(scope['id']):
                 if y['id'] == decl['id']:
                     continue
+                if y['k'] == 'DeclStmt' and not (y.get('l', 0) > decl.get('l', 0)):
+                    # the declaration of an operand itself (it precedes the const local and runs once per activation of the scope)
+                    if all(('v', dd.get('var')) in ops or 'var' not in dd for dd in y.get('decls', [])):
+                        continue
                 try:
                     kv = killed_vars(fn, y)
                 except Exception:
